@@ -100,21 +100,23 @@ def enc_context(events, root, enc_flag, cc=None):
         f = V.S()[V.C()[name][which]]["fields"]
         return bool(f) and isinstance(f[0][1], str) and f[0][1].startswith("TPM2B")
 
-    msgs = []  # [kind, [sessionAttributes values], command code]
+    msgs = []  # [kind, [sessionAttributes values], command code, response code]
     for e in events:
         if e[0] != "E":
             continue
         if e[1] == "" and e[3] == "..." and e[2] in ("Command", "Response"):
-            msgs.append([e[2], [], None])
+            msgs.append([e[2], [], None, None])
+        elif e[1] == ".responseCode" and isinstance(e[3], int) and msgs:
+            msgs[-1][3] = e[3]
         elif e[1].endswith(".sessionAttributes") and isinstance(e[3], int) and msgs:
             msgs[-1][1].append(e[3])
         elif e[1] == ".commandCode" and isinstance(e[3], int) and msgs:
             msgs[-1][2] = e[3]
     if not msgs:
-        return {"requested": bool(enc_flag) if root == "Response" else False, "response_sessions_encrypt": False, "area_can_encrypt": None}
-    kind, attrs, ccnum = msgs[-1]
+        return {"requested": bool(enc_flag) if root == "Response" else False, "response_sessions_encrypt": False, "area_can_encrypt": None, "failed_response": False}
+    kind, attrs, ccnum, rcode = msgs[-1]
     if kind == "Command":
-        return {"requested": any(a & 0x20 for a in attrs), "response_sessions_encrypt": False, "area_can_encrypt": can(ccnum, "cp")}
+        return {"requested": any(a & 0x20 for a in attrs), "response_sessions_encrypt": False, "area_can_encrypt": can(ccnum, "cp"), "failed_response": False}
     if root == "Response":
         req = bool(enc_flag)
         ccnum = cc
@@ -122,4 +124,4 @@ def enc_context(events, root, enc_flag, cc=None):
         prev = next((m for m in reversed(msgs[:-1]) if m[0] == "Command"), None)
         req = bool(prev and any(a & 0x40 for a in prev[1]))
         ccnum = prev[2] if prev else None
-    return {"requested": req, "response_sessions_encrypt": any(a & 0x40 for a in attrs), "area_can_encrypt": can(ccnum, "rp")}
+    return {"requested": req, "response_sessions_encrypt": any(a & 0x40 for a in attrs), "area_can_encrypt": can(ccnum, "rp"), "failed_response": rcode not in (None, 0)}
